@@ -387,8 +387,11 @@ def handle_direct(p):
         return {"accepted": False, "exc": "ValueError", "msg": str(ex)[:200]}
     except Exception as ex:  # noqa: BLE001
         return {"error": type(ex).__name__, "msg": str(ex)[:300]}
-    ok = all(getattr(cfg, k) is kw[k] for k in kw) and (not kw or (
-        any(cfg.running_mode is kw[k] for k in kw) and any(cfg.detector is kw[k] for k in kw)))
+    try:
+        ok = all(getattr(cfg, k) is kw[k] for k in kw) and (
+            any(cfg.running_mode is kw[k] for k in kw) and any(cfg.detector is kw[k] for k in kw))
+    except Exception:  # noqa: BLE001   (a configuration without running mode / detector has no .running_mode / .detector)
+        ok = False
     return {"accepted": True, "holds_given": bool(ok)}
 
 
